@@ -261,7 +261,38 @@ def fnptr_bindings(P, crates):
                                 table.append({"field": uadt + "." + uf, "bound_to": a["path"], "at": n["sp"], "in": b["path"]})
                                 for u in users[(uadt, uf)]:
                                     edges.append((u, a["path"]))
+                            elif a.get("k") == "Closure" and a.get("def") and _non_capturing(a):
+                                # a non-capturing closure written at the constructor call is the same binding as a fn item: it gets a body
+                                # of its own (parameters = the closure's) and its calls are its out-edges
+                                P.synthetic[a["def"]] = {"path": a["def"], "dk": "Closure", "sp": a["sp"], "params": a["params"], "body": a["body"], "pub": False,
+                                                         "inputs": [p.get("ty", "") for p in a["params"]], "output": ""}
+                                table.append({"field": uadt + "." + uf, "bound_to": a["def"], "at": n["sp"], "in": b["path"]})
+                                for u in users[(uadt, uf)]:
+                                    edges.append((u, a["def"]))
+                                for x in walk(a["body"]):
+                                    if x.get("k") in ("Call", "MethodCall") and x.get("callee"):
+                                        edges.append((a["def"], x["callee"]))
+                                    elif x.get("k") == "Path" and x.get("r") == "def" and x.get("dk") in ("Fn", "AssocFn"):
+                                        edges.append((a["def"], x["path"]))
     return edges, table
+
+
+def _non_capturing(clo):
+    """every local the closure body names is bound inside the closure (its parameters, lets, patterns)"""
+    bound = set()
+
+    def binds(x):
+        if isinstance(x, dict):
+            if x.get("k") == "Bind" and "id" in x:
+                bound.add(x["id"])
+            for v in x.values():
+                binds(v)
+        elif isinstance(x, list):
+            for v in x:
+                binds(v)
+    binds(clo["params"])
+    binds(clo["body"])
+    return all(x["id"] in bound for x in walk(clo["body"]) if x.get("k") == "Path" and x.get("r") == "local")
 
 
 def _same_fn(callee, path):
